@@ -77,8 +77,7 @@ func (c *CheckCtx) evalAssumptions() {
 	c.assumptions["A-FN: a builtin (types.Func.Fn) is a function of its arguments and the world (fnOut), and does not panic; builtins are under their own contracts in C13/C20"] = true
 	c.assumptions["A-TIME: no context expires during the evaluation (the timeout return is the only clock-dependent path and is covered by C07's reasoning, not here)"] = true
 	c.assumptions["A-IMMUT: forms are immutable once built (C02), so the step relation may read a form in any heap of the iteration in which it exists (readsat points)"] = true
-	c.assumptions["let: quick tier checks the shape errors, the opening of a new scope, the sequential evaluation of the bindings in that scope (loop invariant) and the tail continuation; the outcome of the body (letStepThorough) is checked in the thorough tier"] = true
-	c.assumptions["try: quick tier checks the empty form only; the full relation (tryStepThorough with the cut lemmas tryShapeThorough/tryArityThorough) is checked in the thorough tier"] = true
+		c.assumptions["try: quick tier checks the empty form only; the full relation (tryStepThorough with the cut lemmas tryShapeThorough/tryArityThorough) is checked in the thorough tier"] = true
 	c.assumptions["quasiquote: EVAL evaluates quasiquote()'s result in tail position in the same scope; the transform itself is checked under C12 (qqStep/qqRel); the evaluation lemma (transformed form evaluates to the substituted template) is not proved"] = true
 }
 
@@ -91,7 +90,7 @@ func init() {
 		ID: "C01", Level: "proof",
 		Technique: "contract-based deductive verification: refinement of a world-threaded language definition (step relation evalStep over abstract outcome functions) by EVAL's tail-recursive loop, eval_ast, do, Apply, plus scope-chain contracts on env.go; VCs from go/ssa, discharged by z3/cvc5 (decision-tree walk per step obligation)",
 		DesignRef: "DESIGN.md §4 C01",
-		Explain:   "for every form, scope and world: each exit of an EVAL iteration yields the value, error and world the definition prescribes for def, if, do, fn, quote, application (closures, builtins), symbols/lists/vectors; let: binding loop and scope only; effect order is the order in which the world is threaded. Not covered: let body outcome, try, hash-map literal evaluation order",
+		Explain:   "for every form, scope and world: each exit of an EVAL iteration yields the value, error and world the definition prescribes for def, if, do, fn, quote, application (closures, builtins), symbols/lists/vectors; let (sequential bindings in a new scope, body, first failing binding); effect order is the order in which the world is threaded. Not covered here: try (C03), hash-map literal evaluation order",
 		Run:       runC01,
 	})
 	register(&Property{
